@@ -821,6 +821,16 @@ def main():
     except (Unsupported, SyntaxError, KeyError, IndexError) as e:
         print("translate: aggregate fill/reduce methods outside translatable subset: %s" % e, file=sys.stderr)
         status = 3
+    try:
+        import translate_pyx
+        text = translate_pyx.generate(rd("set_operations.pyx"))
+        write_if_changed(os.path.join(GEN, "KernelsGen.lean"), text)
+    except (translate_pyx.Unsupported, SyntaxError, KeyError, IndexError, AttributeError) as e:
+        print("translate: set_operations.pyx kernels outside the translatable subset: %s" % e, file=sys.stderr)
+        # leave a stub so that the obligation fails in Lean rather than silently re-using the previous translation
+        write_if_changed(os.path.join(GEN, "KernelsGen.lean"),
+                         "import CatiiModel.Kernels\n-- translation FAILED: %s\n" % str(e).replace("\n", " ")[:300])
+        status = 3
     return status
 
 
